@@ -22,10 +22,45 @@ OUT OF OR IN CONNECTION WITH THE SOFTWARE OR THE USE OR OTHER DEALINGS IN
 THE SOFTWARE.
 """
 
-import functools
-import shlex
-
 from pytools import UniqueNameGenerator
+
+
+def split_line_at_blanks(line):
+    """Return the list of blank-separated words in *line*, where blanks inside
+    a quoted string (single or double quotes, with backslash escapes) do not
+    separate words, wherever in a word the string starts.
+    """
+    words = []
+    current_word = []
+    quote_char = None
+    is_escaped = False
+
+    for char in line:
+        if quote_char is not None:
+            current_word.append(char)
+            if is_escaped:
+                is_escaped = False
+            elif char == "\\":
+                is_escaped = True
+            elif char == quote_char:
+                quote_char = None
+        elif char in "'\"":
+            quote_char = char
+            current_word.append(char)
+        elif char.isspace():
+            if current_word:
+                words.append("".join(current_word))
+                current_word = []
+        else:
+            current_word.append(char)
+
+    if quote_char is not None:
+        raise ValueError("No closing quotation")
+
+    if current_word:
+        words.append("".join(current_word))
+
+    return words
 
 
 def wrap_line_base(line, level=0, width=80, indentation="    ",
@@ -42,7 +77,7 @@ def wrap_line_base(line, level=0, width=80, indentation="    ",
     `lex_func` argument returns the list of tokens in the line.
     """
     if lex_func is None:
-        lex_func = functools.partial(shlex.split, posix=False)
+        lex_func = split_line_at_blanks
 
     tokens = lex_func(line)
     resulting_lines = []
